@@ -16,8 +16,10 @@ def run(ctx):
         "output re-parses to its inputs for all values.")
     K = make_kinds(ctx.model)
     flow.f1(ctx)
+    flow.f_sink(ctx)        # ... and the constructor stores those five components as they are
     flow.f_defaults(ctx)
     flow.f_build_args(ctx)
     flow.f2(ctx, K)
+    flow.f_self(ctx, K)     # `return self` short-cuts compare the canonicalised argument, never the text as supplied
     k1(ctx, K)
     k2_k3(ctx, K)
